@@ -118,6 +118,9 @@ impl Fetcher {
     /// Mark a fetch as complete for the [`NodeId`], with the provided
     /// [`FetchResult`].
     ///
+    /// The result is ignored if the `node` is the local node, or if it already
+    /// has a result.
+    ///
     /// If the target for the [`Fetcher`] has been reached, then a [`Success`] is
     /// returned via [`ControlFlow::Break`]. Otherwise, [`Progress`] is returned
     /// via [`ControlFlow::Continue`].
@@ -128,7 +131,11 @@ impl Fetcher {
         node: NodeId,
         result: FetchResult,
     ) -> ControlFlow<Success, Progress> {
-        self.results.push(node, result);
+        // N.b. ensure that the local node, or a node that already has a result,
+        // is never counted towards the target
+        if self.include_node(&node) {
+            self.results.push(node, result);
+        }
         self.finished()
     }
 
